@@ -25,6 +25,8 @@ MIN_EVALS = {'quick': 600, 'thorough': 6000}
 
 
 def big_grammar(r):
+    if r.random() < 0.34:
+        return common.permuted_pairs_grammar(r, r.randint(25, 60))
     g = gen.Gen(r, depth=r.choice([4, 5, 6]), ndefs=(3, 12), specs=r.random() < 0.5, builtins=r.random() < 0.4,
                 max_width=4, fallbacks=0.2, p_word=0.3)
     return g.grammar()
